@@ -242,7 +242,7 @@ class CollectionMerge(Contract):
 # ------------------------------------------------------------------ validation (C11)
 @contract('mosromgr.moscollection.MosCollection.__init__')
 class CollectionInit(Contract):
-    props = ('C11',)
+    props = ('C11', 'C09')
     config = ('OPT',)
 
     def entry(self, E):
@@ -277,18 +277,18 @@ class CollectionInit(Contract):
         RO = cx.W.clsconst('RunningOrder')
         n = cx.a['mos_readers'].length
         idx = ex.st.fields(ro).get('$idx') if isinstance(ro, SObj) else None
-        out.append(('C11.the_collection_running_order_is_the_roCreate',
+        out.append(('C11+C09.the_collection_running_order_is_the_roCreate',
                     A(0 <= idx.t, idx.t < n, mtype_of(idx.t) == RO) if idx is not None else z3.BoolVal(False)))
         rd = f.get('_mos_readers')
         j, j2, k = z3.Ints('j!v j2!v k!v')
         if isinstance(rd, SList) and hasattr(rd, 'src'):
             ridx = lambda jj: ex.st.fields(rd.elem(jj))['$idx'].t if False else rd.src(jj)
-            out.append(('C11.remaining_readers_are_all_the_others_in_order',
+            out.append(('C11+C09.remaining_readers_are_all_the_others_in_order',
                         A(z3.ForAll([j], Imp(A(0 <= j, j < rd.length), A(0 <= rd.src(j), rd.src(j) < n, mtype_of(rd.src(j)) != RO))),
                           z3.ForAll([j, j2], Imp(A(0 <= j, j < j2, j2 < rd.length), rd.src(j) < rd.src(j2))),
                           z3.ForAll([k], Imp(A(0 <= k, k < n, mtype_of(k) != RO), A(0 <= rd.dst(k), rd.dst(k) < rd.length, rd.src(rd.dst(k)) == k))))))
         else:
-            out.append(('C11.remaining_readers_are_all_the_others_in_order', z3.BoolVal(False)))
+            out.append(('C11+C09.remaining_readers_are_all_the_others_in_order', z3.BoolVal(False)))
         return out
 
     def raises(self, cx, ex):
@@ -339,6 +339,19 @@ class ReaderFromFile(Contract):
         return [Case('reader', ret=reader_for_root(cx.E, root, 'file', s), assume=[ok]),
                 Case('invalid', exc='MosRoMgrException', assume=[file_readable(s.t), z3.Not(ok)]),
                 Case('unreadable', exc='OSError', assume=[z3.Not(file_readable(s.t))])]
+
+
+class ReaderFromS3(Contract):
+    props = ()
+    body_proved = False
+
+    def cases(self, cx):
+        from .classify import s3_content
+        b, k = cx.a['bucket_name'], cx.a['mos_file_key']
+        root = parse_root(s3_content(b.t, k.t))
+        ok = A(wellformed(s3_content(b.t, k.t)), doc_ok(root))
+        return [Case('reader', ret=reader_for_root(cx.E, root, 's3', k), assume=[ok]),
+                Case('invalid', exc='MosRoMgrException', assume=[z3.Not(ok)])]
 
 
 @contract('builtin.sorted')
@@ -504,3 +517,44 @@ def _init_cases(self, cx):
 
 
 CollectionInit.cases = _init_cases
+
+
+@contract('mosromgr.moscollection.MosCollection.from_s3')
+class FromS3Many(FromManyContract):
+    """readers for exactly the keys listed by get_mos_files (its own contract), sorted by numeric message id"""
+    arg = None
+
+    def entry(self, E):
+        W = E.W
+        st = State(L.Heap(0, 0), z3.IntVal(0))
+        b, p, sfx = SStr(W.fresh('bucket', Str)), SStr(W.fresh('prefix', Str)), SStr(W.fresh('suffix', Str))
+        st.assume(b.t != none_s, sfx.t != none_s)
+        return st, {'cls': SCls(E.repo.cls('MosCollection')), 'bucket_name': b, 'prefix': p, 'suffix': sfx,
+                    'allow_incomplete': SBool(W.fresh('allow', L.B))}
+
+    def requires(self, cx):
+        from .classify import schema_doc, s3_content
+        k = z3.Const('k!s3', Str)
+        c = s3_content(cx.str('bucket_name'), k)
+        return [('stored_objects_are_schema_shaped_messages_when_well_formed',
+                 z3.ForAll([k], Imp(wellformed(c), schema_doc(cx.W, cx.H, parse_root(c))), patterns=[c]))]
+
+    def ensures(self, cx, ex):
+        inits = [a for a in ex.st.addlog if a[0] == 'init']
+        if len(inits) != 1:
+            return [('C10.constructs_one_collection_from_the_sorted_readers', z3.BoolVal(False))]
+        rd = inits[0][1]
+        j = z3.Int('j!o')
+        perm = getattr(rd, 'perm', None)
+        keys = rd
+        for _ in range(5):
+            keys = getattr(keys, 'base', None)
+            if keys is None or getattr(keys, 'desc', '') == 'get_mos_files':
+                break
+        listed = keys is not None and getattr(keys, 'desc', '') == 'get_mos_files'
+        n = keys.length if listed else z3.IntVal(-1)
+        return [('C10.readers_in_ascending_numeric_message_id_order',
+                 z3.ForAll([j], Imp(A(0 <= j, j + 1 < rd.length), fields_mid(ex.st, rd.elem(j)) <= fields_mid(ex.st, rd.elem(j + 1))))),
+                ('C10+C18.every_listed_key_becomes_exactly_one_reader',
+                 A(z3.BoolVal(listed and perm is not None), rd.length == n,
+                   z3.ForAll([j], Imp(A(0 <= j, j < n), A(0 <= rd.perm_inv(j), rd.perm_inv(j) < n, perm(rd.perm_inv(j)) == j))) if perm is not None else z3.BoolVal(False)))]
